@@ -80,6 +80,8 @@ def run(tier, seed, jobs):
         for v in r["violations"]:
             viol.append({"engine": "D", "what": [v["what"]], "case": v,
                          "signature": "lru_cache:sequential-differs-from-functools"})
+    if viol:
+        cov["exhaustive"] = False
     cov["sequential_sequences"] = nseq
     cov["sequential_distinct_hit_patterns"] = npat
     cov["sequential_configs"] = [list(map(repr, a)) for a in seqs]
